@@ -36,7 +36,7 @@ REQUIRED = {"quick": {"cvar.calls": 20000, "cvar.e2e": 200, "cvar.no_success": 1
             "thorough": {"cvar.calls": 1000000, "cvar.e2e": 2000, "cvar.no_success": 50, "__nontrivial__": 1000}}
 
 FLAVOURS = [("objective", None), ("constraint", "upper"), ("constraint", "lower"), ("constraint", "eq"),
-            ("constraint", "two"), ("objective2", None)]
+            ("constraint", "two"), ("objective2", None), ("objective_neg", None)]
 
 
 def _grid(n: int, tier: str) -> list[float]:
@@ -95,6 +95,12 @@ def _config(n, flavour, kind, percentile, rng, weights=None):
         cfg["objectives"] = {"weights": ow, "realization_filters": [0, -1, 0]}
         cfg["realization_filters"] = [{"method": "cvar-objective", "options": {"sort": [0, 2], "percentile": percentile}}]
         meta = {"ow": ow, "sort": [0, 2]}
+    elif flavour == "objective_neg":
+        # a maximised (negatively weighted) objective ranked alone in a multi-objective problem
+        ow = [2.0, -1.0]
+        cfg["objectives"] = {"weights": ow, "realization_filters": [-1, 0]}
+        cfg["realization_filters"] = [{"method": "cvar-objective", "options": {"sort": [1], "percentile": percentile}}]
+        meta = {"ow": ow, "sort": [1]}
     else:
         lo, hi = {"upper": (-np.inf, 0.3), "lower": (-0.2, np.inf), "eq": (0.1, 0.1), "two": (-0.5, 0.5)}[kind]
         cfg["objectives"] = {"weights": [1.0]}
@@ -112,6 +118,8 @@ def _badness(flavour, kind, meta, values):
     if flavour == "objective2":
         w = np.asarray(meta["ow"])[meta["sort"]]
         return values @ w
+    if flavour == "objective_neg":
+        return values * meta["ow"][1] / sum(meta["ow"])
     if kind == "upper":
         return values
     if kind == "lower":
@@ -125,6 +133,9 @@ def _call(flt, flavour, meta, ranked, failed, rng):
     n = len(failed)
     if flavour == "objective":
         obj = ranked.reshape(n, 1).copy()
+        con = None
+    elif flavour == "objective_neg":
+        obj = np.stack([rng.normal(size=n) * 100, ranked], axis=1)
         con = None
     elif flavour == "objective2":
         obj = np.empty((n, 3))
@@ -229,7 +240,7 @@ def _e2e(case, obs):
 
     rng = rng_for(obs.seed, "c04e2e", case["i"])
     n = int(rng.integers(1, 13))
-    fl, kind = FLAVOURS[int(rng.integers(5))]
+    fl, kind = FLAVOURS[int(rng.integers(5))] if rng.random() < 0.8 else FLAVOURS[6]
     failed = rng.random(n) < rng.choice([0.0, 0.3])
     if failed.all():
         failed[int(rng.integers(n))] = False
@@ -242,6 +253,8 @@ def _e2e(case, obs):
     def evaluator(variables, context):
         assert variables.shape[0] == n
         obj = np.where(failed, np.nan, ranked if fl == "objective" else other).reshape(n, 1)
+        if fl == "objective_neg":
+            obj = np.stack([other, np.where(failed, np.nan, ranked)], axis=1)
         con = None
         if fl == "constraint":
             con = np.stack([other * 3, ranked], axis=1)
@@ -256,8 +269,9 @@ def _e2e(case, obs):
     if res.functions is None:
         obs.violation("e2e_no_functions", n=n, failed=failed)
         return
-    got = float(res.functions.objectives[0] if fl == "objective" else res.functions.constraints[1])
-    rows = res.realizations.objective_weights if fl == "objective" else res.realizations.constraint_weights
+    isobj = fl in ("objective", "objective_neg")
+    got = float(res.functions.objectives[{"objective": 0, "objective_neg": 1}[fl]] if isobj else res.functions.constraints[1])
+    rows = res.realizations.objective_weights if isobj else res.realizations.constraint_weights
     row = rows[0] if fl == "objective" else rows[1]
     for k, d in models.check_cvar_weights(row, bad, failed, p):
         obs.violation("e2e_" + k, flavour=fl, kind=kind, percentile=p, failed=failed, ranked=ranked, w=row, **d)
